@@ -167,8 +167,11 @@ def cases(draw):
     arr.insert(j, copy.deepcopy(x))
     extra = draw(st.lists(VALUES, max_size=2))
     pos = draw(st.integers(0, len(extra)))
+    # sizes and depths far beyond the rest: the pair buried under many levels, the array padded with many fillers
+    bury = draw(st.sampled_from([0, 0, 0, 0, 70, 90]))
+    pad = draw(st.sampled_from([0, 0, 0, 30, 45, 64]))
     return {"draft": d, "c": c, "x": x, "arr": arr, "enum_extra": extra, "enum_pos": pos,
-            "rewrites": kinds, "depth": depth}
+            "rewrites": kinds, "depth": depth, "bury": bury, "pad": pad}
 
 
 class C08(Prop):
@@ -182,7 +185,7 @@ class C08(Prop):
             "Non-trivial: at least one rewrite other than identity was applied; distinct by SHA-1 of the case.")
     ASSUMPTIONS = ["Python int/float comparison is exact (language guarantee)", "O-EQ is the JSON data-model equality"]
     GATES = {"equal": 500, "unequal": 500, "depth>=1": 500, "depth>=2": 100, "uniq:hash": 200, "uniq:sort": 50,
-             "uniq:brute": 200, "rw:bool<->int": 200, "rw:int<->float": 100, "rw:key-order": 30}
+             "uniq:brute": 200, "rw:bool<->int": 200, "rw:int<->float": 100, "rw:key-order": 30, "buried-deep": 500, "long-array": 500}
     MIN_NONTRIVIAL = 1000
 
     def strategy(self, tier):
@@ -193,6 +196,15 @@ class C08(Prop):
         d = case["draft"]
         cls = impl.CLS[d]
         c, x, arr = case["c"], case["x"], case["arr"]
+        bury = case.get("bury") or 0
+        if isinstance(bury, int) and 0 < bury <= 100:
+            for i in range(bury):       # alternately inside an array and inside an object
+                c, x = ([c], [x]) if i % 2 else ({"k": c}, {"k": x})
+            res.labels.append("buried-deep")
+        pad = case.get("pad") or 0
+        if isinstance(pad, int) and 0 < pad <= 100:
+            arr = list(arr) + [[i, "pad"] if i % 3 == 0 else {"pad": i} if i % 3 == 1 else 1000 + i for i in range(pad)]
+            res.labels.append("long-array")
         eq = jeq(c, x)
         res.evals = 0
 
@@ -244,6 +256,25 @@ class C08(Prop):
             if v == dup:
                 res.fail(("uniqueItems-array", "accepts-duplicate" if v else "rejects-distinct", uniq_path(arr)),
                          "array=%s" % impl.cj(arr))
+        # one validator object, one long list object edited in place between two calls (length unchanged): each call
+        # looks at the list as it is now
+        if len(arr) >= 2:
+            try:
+                vu = cls({"uniqueItems": True})
+                live = copy.deepcopy(arr)
+                first = vu.is_valid(live)
+                saved = live[-1]
+                live[-1] = copy.deepcopy(live[0])           # now certainly holds a duplicate
+                second = vu.is_valid(live)
+                live[-1] = saved
+                third = vu.is_valid(live)
+                res.evals += 3
+                if second is not False or third != first:
+                    res.fail(("uniqueItems-array", "edited-in-place"), "same validator, same list object: before %r, with last := "
+                             "first %r (must be False), restored %r (must equal the first answer); array=%s" % (
+                                 first, second, third, impl.cj(arr)[:300]))
+            except Exception as e:
+                res.fail(("crash", "edited-in-place", impl.tname(e)), repr(e))
         # the same values loaded with object_pairs_hook=OrderedDict (a documented way to load JSON): member order
         # still must not matter
         import collections
